@@ -80,6 +80,13 @@ theorem c08_sources_known :
     watchSources.all (fun n => (watchSourceValue (Text.ofString n)).isSome) = true := by
   decide
 
+/-- **the source mapping is one-to-one over the whole enum**: every source the agent defines converts to a wire value
+    that reads back as exactly that source (so no two sources share a wire value, none falls back to another) -/
+theorem c08_sources_roundtrip :
+    watchSources.all (fun n => watchSourceName (convertWatchSource (Text.ofString n)) == Text.ofString n) = true ∧
+    (watchSources.map (fun n => convertWatchSource (Text.ofString n))).Nodup := by
+  decide
+
 /-! ### round trip -/
 
 /-- **whatever is sent is the snapshot**: if a message is produced at all, reading it back gives every field of the
